@@ -13,6 +13,7 @@
   `objsize` bytes.
 -/
 import QlibcModel.Seq.VectorBytes
+import QlibcModel.Seq.InvVectorLemmas
 namespace Qlibc.Props.C10
 open Qlibc Qlibc.Seq Qlibc.Seq.Spec
 
@@ -165,6 +166,72 @@ theorem history_refines (max objsize options : Nat) (hos : 1 ≤ objsize) (ops :
   rw [e] at g1 g2
   exact ⟨v, hv, g1, g2, g3⟩
 
+/-! ### option words: the constructor's resolution of the policy bits and addat's growth rule
+
+  `Vec.new` and `Vec.grownMax` are assembled from two SEPARATE facts extracted from the current
+  source (Generated/VectorPrims.lean: the constructor's if / else-if chain and what `vector->options`
+  starts from; the chain and formulas of addat's growth block). That the two agree is not an
+  assumption of the model but the theorems below, re-checked whenever the extracted facts change. -/
+
+/-- qvector() for EVERY option word: DOUBLE wins over LINEAR wins over EXACT (which is also the
+    default); exactly that one policy bit is stored — THREADSAFE and every other bit of the word
+    play no role for growth; `initnum` is prepared (max, or 1 for max = 0) for the linear policy only -/
+theorem ctor_policy_precedence (max objsize options : Nat) (hos : 1 ≤ objsize) :
+    ∃ v, Vec.new max objsize options = some v ∧ v.max = max ∧ v.num = 0 ∧ v.objsize = objsize ∧
+      v.options = (if options &&& 2 ≠ 0 then 2 else if options &&& 4 ≠ 0 then 4 else 8) ∧
+      v.initnum = (if ¬ (options &&& 2 ≠ 0) ∧ options &&& 4 ≠ 0 then (if max = 0 then 1 else max) else 0) := by
+  rw [Vec.new_explicit, if_neg (by omega)]
+  exact ⟨_, rfl, rfl, rfl, rfl, rfl, rfl⟩
+
+/-- for EVERY option word, initial capacity, element size ≥ 1 and EVERY history: whenever the vector
+    is in a state where addat has to grow it, the capacity addat asks for is larger than the current
+    one, and qvector_resize gives exactly that capacity — so the slot addat writes exists -/
+theorem capacity_grows_every_option_word (max objsize options : Nat) (hos : 1 ≤ objsize) (ops : List VOp)
+    (hops : ∀ op ∈ ops, op.ok objsize) (hlen : ops.length < 2147483648) :
+    ∃ v, Vec.new max objsize options = some v ∧
+      (v.run ops).2.max < (v.run ops).2.grownMax ∧
+      ((v.run ops).2.resize (v.run ops).2.grownMax).2.max = (v.run ops).2.grownMax ∧
+      (v.run ops).2.num < ((v.run ops).2.resize (v.run ops).2.grownMax).2.max := by
+  have hne : objsize ≠ 0 := by omega
+  obtain ⟨v, hv⟩ : ∃ v, Vec.new max objsize options = some v := by
+    unfold Vec.new; rw [if_neg hne]; exact ⟨_, rfl⟩
+  obtain ⟨w, l, o, _⟩ := Vec.new_WF max objsize options v hv
+  have hnum : v.num = 0 := by
+    have := Vec.live_length v w; rw [l] at this; simpa using this.symm
+  obtain ⟨_, _, g3⟩ := Vec.run_refines v w ops (by rw [o]; exact hops) (by omega)
+  have hg := Vec.grownMax_gt _ g3
+  obtain ⟨_, _, _, h4, _⟩ := Vec.resize_spec _ g3 (v.run ops).2.grownMax
+  refine ⟨v, hv, hg, h4, ?_⟩
+  rw [h4]; have := g3.num_le; omega
+
+/-- the growth rule in terms of the option word given to the constructor -/
+theorem growth_rule_every_option_word (max objsize options : Nat) (hos : 1 ≤ objsize) :
+    ∃ v, Vec.new max objsize options = some v ∧
+      v.grownMax = (if options &&& 2 ≠ 0 then (max + 1) * 2
+                    else if options &&& 4 ≠ 0 then max + (if max = 0 then 1 else max) else max + 1) := by
+  obtain ⟨v, hv, hm, _, _, ho, hi⟩ := ctor_policy_precedence max objsize options hos
+  refine ⟨v, hv, ?_⟩
+  obtain ⟨g1, g2, g3⟩ := Vec.grownMax_eq v
+  by_cases hd : options &&& 2 ≠ 0
+  · rw [if_pos hd] at ho ⊢; rw [g1 ho, hm]
+  · rw [if_neg hd] at ho ⊢
+    by_cases hl : options &&& 4 ≠ 0
+    · rw [if_pos hl] at ho ⊢
+      rw [if_pos ⟨hd, hl⟩] at hi
+      rw [g2 ho, hm, hi]
+    · rw [if_neg hl] at ho ⊢; rw [g3 ho, hm]
+
+/-! ### invalid arguments -/
+
+/-- `inv` (Seq/Inv.lean; harness/vector.c makes the same calls): NULL data, an index just above and
+    just below the valid range for add / get / set / pop / remove, getnext without a cursor, debug
+    without a stream, toarray without the size pointer, resize to the current capacity — every
+    refusal carries the documented errno (EINVAL; ERANGE, or ENOENT on an empty vector; EIO), the
+    two permitted calls answer as usual, and the vector is the very same afterwards -/
+theorem inv_identity (v : Vec) (hwf : v.WF) (hn : v.num + 1 < 2147483648) :
+    v.inv.st = v ∧ v.inv.log = v.invExpected :=
+  Vec.inv_identity v hwf hn
+
 /-- the constructor refuses element size 0 -/
 theorem new_zero_objsize (max options : Nat) : Vec.new max 0 options = none := rfl
 
@@ -187,6 +254,6 @@ example : (⟨[[1], [2], [3]], 3, 3, 1, 8, 0⟩ : Vec).WF :=
     | 0, h => simp at h; simp [← h]
     | 1, h => simp at h; simp [← h]
     | 2, h => simp at h; simp [← h]
-    | k + 3, h => simp at h, by decide⟩
+    | k + 3, h => simp at h, fun m => by rw [Vec.growKind_explicit]; simp [growBy]⟩
 
 end Qlibc.Props.C10
